@@ -43,7 +43,7 @@ EXPECTED_PROBES = [f"fault_cut_{c}_{k}" for c in CUT_CLASSES for k in ("fin", "r
     "probe_retry_path", "probe_server_error", "probe_server_shutdown", "probe_peer_push_handled", "probe_cut_with_calls_pending",
     "probe_big_response", "probe_big_request", "probe_unencodable_request", "probe_broken_on_error_ran",
     "probe_many_unencodable_requests_then_a_call", "net_cut_timeout", "probe_two_connections", "line_preemptions_hot", "probe_bidirectional", "probe_reverse_call",
-    "probe_server_initiated_close", "net_stall", "probe_request_with_effect", "probe_slow_on_close_ran"]
+    "probe_server_initiated_close", "net_stall", "probe_request_with_effect", "probe_slow_on_close_ran", "probe_push_call_issued_on_the_klong_loop"]
 WALL_CAP = {"quick": 400, "thorough": 3600}
 
 
@@ -289,6 +289,23 @@ def scenario(ch, cfg):
     def pending_now():
         return sum(1 for rec in records if rec.get("ret_step") is None)
 
+    on_kl_callers = set()
+    kl_mode = None
+    if bidir and ch.draw(2, "rev.on_klongloop"):
+        # the server's push calls come from its klong loop (a timer callback, a REPL line), not from a thread of their own;
+        # one such caller only: two blocking calls cannot be in progress on one loop
+        on_kl_callers.add(1)
+        stats["probe_push_call_issued_on_the_klong_loop"] += 1
+        if ch.draw(4, "rev.kl_mode") == 0 and fault in ("none", "stall"):
+            # ... while the client has requests of its own in flight on the same connection (known finding, see below)
+            kl_mode = "with-client-requests"
+        else:
+            # ... and nothing else is asking for the server's klong loop meanwhile: the client side only answers
+            kl_mode = "push-only"
+            for i in range(ncallers):
+                if i % 2 == 0:
+                    plans[i] = []
+
     def caller(i):
         extra = 0
         nc = ncs[i % len(ncs)]          # the connection this caller uses
@@ -334,6 +351,12 @@ def scenario(ch, cfg):
                     stats["probe_dict_handle_caller"] += 1
                     h = ipc.NetworkClientDictHandle(nc)
                     res = "handle" if h.set(KGSym(f"w{i}"), msg[1]) is h else "not-the-handle"
+                elif i in on_kl_callers:
+                    box = env.server.on_klongloop(lambda nc=nc, msg=msg: nc.call(msg))
+                    w.block_until(lambda: "result" in box or "exc" in box, "klongloop.call")
+                    if "exc" in box:
+                        raise box["exc"]
+                    res = box["result"]
                 else:
                     res = nc.call(msg)
                 rec["outcome"] = ("ok", res)
@@ -410,7 +433,15 @@ def scenario(ch, cfg):
                 what = "close()" if a is closer else "remote call"
                 pend = [f"{r['caller']}.{r['idx']}" for r in records if r["ret_step"] is None]
                 cls = "close" if a is closer else ("after-loss" if any(r["ret_step"] is None and r["after_loss"] and r["caller"] == int(a.name[-1]) for r in records) else "pending-call")
-                if reason == "quiescent":
+                if reason == "quiescent" and kl_mode == "with-client-requests" and any(
+                        r["ret_step"] is None and r["caller"] in on_kl_callers for r in records):
+                    # KNOWN (known_findings.json): the server's klong loop is blocked in its push call; a request of the client
+                    # arrives on the same connection; the server's listener hands it to the klong loop and waits - and so
+                    # never reads the client's answer to the push.  Both calls wait for ever.  Only this constellation (push
+                    # issued on the klong loop, client requests in flight, no loss) carries this signature.
+                    viol("C14:deadlock:push-from-the-klong-loop-while-a-request-of-the-same-connection-is-served",
+                         f"{what} of {a.name} never completes; pending calls {pend}; {ctx}")
+                elif reason == "quiescent":
                     viol(f"C14:hang:{cls}:{fault if fault != 'cut' else 'cut-' + (env.cut_fired or env.cut_plan)['cls'] if env.cut_plan else fault}",
                          f"{what} of {a.name} never completes: world quiescent with the caller blocked at {a.desc}; pending calls {pend}; {ctx}")
                 else:
